@@ -83,6 +83,7 @@ pub fn module_for(side: Side, idx: usize) -> Module {
 
 pub fn run_module(case: &Case, side: Side, module: Option<Module>) -> Outcome {
     script::set_side(side);
+    script::set_lenient_ok(!matches!(case.sink, SinkFault::Once(_)));
     script::probe_reset();
     let mut sink = FaultSink::new(case.sink);
     let caught = std::panic::catch_unwind(std::panic::AssertUnwindSafe(|| match &case.layer {
